@@ -30,7 +30,7 @@ OWN = {
     "DataObjectConstructed": {"C10", "C04"},
 }
 
-REPORTS_GATE = ["r:wmonth:orig", "r:weast:orig", "x:wmonth"]
+REPORTS_GATE = ["r:wmonth:orig", "r:weast:orig", "x:wmonth", "r:wday:orig"]      # r:wday: a single day in a month the short baseline never saw
 REPORTS_SPAN = ["r:wyear:orig", "r:wpart:orig", "r:wmonth:orig", "r:wweek:orig", "r:wday:orig", "r:wweek:absent"]
 REPORTS_OBS = ["r:wyear:orig", "r:wyear:x3", "r:wyear:shuffled", "r:wyear:partnan", "r:wyear:partzero", "r:wyear:allnan", "r:wyear:absent",
                "r:wpart:orig", "r:wpart:absent", "r:wpart:partnan", "r:wpart:partzero",
@@ -41,7 +41,7 @@ SCENARIOS = {
     "gate": dict(template="T_gate", base=["b:good", "b:short", "b:poor"], reports=REPORTS_GATE, slots=["s1", "s2"], ign=[True, False]),
     "gate2": dict(template="T_gate", base=["b:gaps", "b:east", "b:poor"], reports=REPORTS_GATE, slots=["s1", "s2"], ign=[True, False]),
     "refit": dict(template="T_refit", base=["b:good", "b:short", "b:poor"], reports=["r:wmonth:orig", "r:weast:orig"], slots=["s1"], ign=[True, False]),
-    "store": dict(template="T_store", base=["b:good", "b:poor", "b:other"], reports=["r:wyear:orig", "r:wweek:orig", "r:wpart:absent"], slots=["s1", "s2"], ign=[True]),
+    "store": dict(template="T_store", base=["b:good", "b:poor", "b:short"], reports=["r:wyear:orig", "r:wweek:orig", "r:wpart:absent"], slots=["s1", "s2"], ign=[True]),
     "pure": dict(template="T_pure", base=["b:good", "b:short"], reports=REPORTS_SPAN, slots=["s1"], ign=[True]),
     "inter": dict(template="T_inter", base=["b:good", "b:other"], reports=["r:wyear:orig", "r:wweek:orig"], slots=["s1", "s2"], ign=[False]),
     "obs": dict(template="T_obs", base=["b:good"], reports=REPORTS_OBS, slots=["s1"], ign=[False]),
